@@ -29,7 +29,7 @@ EXPLANATION = (
     "Not decided: equality of arbitrary user functions under cache on/off; the history "
     "quantifier beyond 'each operation preserves R4'.")
 RULE_TEXT = "one obligation per operator x literal prefix, per counter clause, per metric store, per cache clause"
-FLOORS = {'C15.R1': 30, 'C15.R2': 2, 'C15.R3': 5, 'C15.R4': 2, 'C15.R5': 3, 'C15.R6': 1, 'C15.R7': 1, 'C15.R8': 2, 'C15.R9': 5, 'C15.R10': 1}
+FLOORS = {'C15.R1': 30, 'C15.R2': 2, 'C15.R3': 4, 'C15.R4': 2, 'C15.R5': 3, 'C15.R6': 1, 'C15.R7': 1, 'C15.R8': 2, 'C15.R9': 5, 'C15.R10': 1}
 PINNED_EXPECT = [('C15.R5', 'emd.cycles.get_cycle_vector', 'last boundary'),
                  ('C15.R7', 'emd._cycles_support.map_cycle_to_samples_augmented', 'augmented extent'),
                  ('C15.R8', 'emd._cycles_support.get_augmented_cycle_stat_from_samples', 'possibly-None'),
@@ -338,65 +338,124 @@ def rule_counters(ctx, rid):
     gap_terms = set()
     paths = _loop_store_paths(exits)
     if paths:
+        def gap_elem(t, var):
+            return t[0] == 'sub' and t[2] == var
+
+        def ev_cond(cd, var, d):
+            """truth of a path condition for gap value d (None when the condition does not speak about the gap)"""
+            if cd[0] == 'cmp' and gap_elem(cd[2], var) and is_c(cd[3]) and cd[1] in ('==', '!=', '<', '<=', '>', '>='):
+                import operator
+                return {'==': operator.eq, '!=': operator.ne, '<': operator.lt, '<=': operator.le, '>': operator.gt,
+                        '>=': operator.ge}[cd[1]](d, cd[3][1])
+            if cd[0] in ('and', 'or'):
+                vals = [ev_cond(x, var, d) for x in cd[1]]
+                if any(v is None for v in vals):
+                    return None
+                return all(vals) if cd[0] == 'and' else any(vals)
+            if cd[0] == 'un' and cd[1] == 'not':
+                v = ev_cond(cd[2], var, d)
+                return None if v is None else not v
+            return None
         for ls, b, stores in paths:
-            rel = None
             for cn, truth, ln in b.conds:
-                if cn[0] == 'cmp' and cn[2][0] == 'sub' and cn[2][2] == ls.var:
-                    gap_terms.add(strip_gap(cn[2][1]))
-                    if cn[1] == '==' and cn[3] == C(1) and truth:
-                        rel = 'same'
-                    elif cn[1] == '>' and cn[3] == C(1) and truth:
-                        rel = 'new'
-                    elif cn[1] == '>=' and cn[3] == C(2) and truth:
-                        rel = 'new'
-            if rel is not None and not stores:
-                n += 1
-                bad = 'a selected cycle whose index gap is %s gets no chain label (it keeps the initial -1)' % (
-                    '1' if rel == 'same' else '> 1')
-            for eff in stores:
-                n += 1
-                val = eff[3]
-                heads = [h for h in ls.head_env.values() if h[0] == 's' and '@F' in h[1]]
-                cnt = [h for h in heads if h in set(subterms(val)) and h != ls.var]
-                if rel is None or len(cnt) != 1:
-                    bad = 'chain label written under an unrecognised gap test'
-                    continue
-                head = cnt[0]
-                cname = head[1].split('@')[0]
-                if rel == 'same':
-                    if val != head or b.env.get(cname) != head:
-                        bad = 'gap 1 writes %s' % show(val)
-                else:
-                    if alg.poly(val) - alg.poly(head) != alg.poly(C(1)) or \
-                            alg.poly(b.env.get(cname)) - alg.poly(head) != alg.poly(C(1)):
-                        bad = 'gap > 1 writes %s, counter %s' % (show(val), show(b.env.get(cname)))
-                if ls.entry_env.get(cname) != C(0):
-                    bad = 'chain counter starts at %s' % show(ls.entry_env.get(cname, NONE))
+                for t in subterms(cn):
+                    if t[0] == 'cmp' and gap_elem(t[2], ls.var):
+                        gap_terms.add(strip_gap(t[2][1]))
+        # gaps between selected cycle indices are integers >= 1: enumerate 1..4
+        for d in (1, 2, 3, 4):
+            chosen = []
+            for ls, b, stores in paths:
+                ok = True
+                spoke = False
+                for cn, truth, ln in b.conds:
+                    v = ev_cond(cn, ls.var, d)
+                    if v is None:
+                        continue
+                    spoke = True
+                    if v != truth:
+                        ok = False
+                if ok and spoke:
+                    chosen.append((ls, b, stores))
+            if len(chosen) != 1:
+                bad = 'an index gap of %d selects %d paths of the labelling loop' % (d, len(chosen))
+                break
+            ls, b, stores = chosen[0]
+            n += 1
+            if len(stores) != 1:
+                bad = 'a selected cycle whose index gap is %d gets %s (it must get exactly one)' % (
+                    d, 'no chain label and keeps the initial value' if not stores else '%d chain labels' % len(stores))
+                break
+            val = stores[0][3]
+            heads = [h for h in ls.head_env.values() if h[0] == 's' and '@F' in h[1]]
+            cnt = [h for h in heads if h in set(subterms(val)) and h != ls.var]
+            if len(cnt) != 1:
+                bad = 'gap %d: the label written (%s) is not derived from a running chain counter' % (d, show(val)[:40])
+                break
+            head = cnt[0]
+            cname = head[1].split('@')[0]
+            if d == 1:
+                if val != head or b.env.get(cname) != head:
+                    bad = 'gap 1 writes %s (counter afterwards %s): the chain must continue' % (show(val), show(b.env.get(cname)))
+                    break
+            else:
+                if alg.poly(val) - alg.poly(head) != alg.poly(C(1)) or \
+                        alg.poly(b.env.get(cname)) - alg.poly(head) != alg.poly(C(1)):
+                    bad = 'gap %d writes %s, counter %s: a new chain must start' % (d, show(val), show(b.env.get(cname)))
+                    break
+            if ls.entry_env.get(cname) != C(0):
+                bad = 'chain counter starts at %s' % show(ls.entry_env.get(cname, NONE))
+                break
         form = 'loop'
     else:
-        # vectorised form:  chain[g >= 1] = cumsum(g > 1)[g >= 1]   on a -1-initialised vector
+        # vectorised form: the return term is interpreted on every selection pattern of up to 6 cycles (the chain
+        # vector depends on the subset vector only through `> -1` and the gaps of the selected positions)
         form = 'vectorised'
-        for e in exits:
-            v = e.value
-            if v[0] == 'call' and v[1] == 'numpy.where' and len(v[2]) == 3 and v[2][0][0] == 'cmp' and v[2][2] == C(-1):
-                # np.where(g >= 1, cumsum(g > 1), -1)  ==  (-1 vector)[g >= 1] = cumsum(g > 1)[g >= 1]
-                init_ok_vectorised = True
-                v = ('setitem', ('bin', '-', ('call', 'numpy.zeros_like', (), ()), C(1)), v[2][0],
-                     ('sub', v[2][1], v[2][0]))
-            if v[0] == 'setitem' and v[2][0] == 'cmp' and v[3][0] == 'sub' and v[3][2] == v[2]:
-                m = v[2]
-                g = strip_gap(m[2])
-                cs = v[3][1]
-                if m[1] == '>=' and m[3] == C(1) and cs[0] == 'call' and cs[1] == 'numpy.cumsum' and cs[2] \
-                        and cs[2][0][0] == 'cmp' and cs[2][0][1] == '>' and cs[2][0][3] == C(1) \
-                        and strip_gap(cs[2][0][2]) == g:
+        import itertools
+        from ..orderval import OrderEval, Undecided as OUndecided
+        nmax = 7 if ctx.tier == 'thorough' else 6
+        try:
+            for n_ in range(0, nmax + 1):
+                for selv in itertools.product((False, True), repeat=n_):
+                    subset = []
+                    k = 0
+                    for v in selv:
+                        subset.append(k if v else -1)
+                        k += 1 if v else 0
+                    want = []
+                    prev = False
+                    ch = -1
+                    for v in selv:
+                        if v:
+                            if not prev:
+                                ch += 1
+                            want.append(ch)
+                        prev = v
+                    got = None
+                    for e in exits:
+                        oe = OrderEval({sv: list(subset)})
+                        try:
+                            if all(bool(oe.ev(cd)) == tr for cd, tr, ln in e.state.conds):
+                                got = oe.ev(e.value)
+                                break
+                        except IndexError as ie:
+                            got = ie
+                            break
+                    if isinstance(got, IndexError):
+                        bad = 'selection %s: %s' % (list(map(int, selv)), got)
+                    elif got is None or not isinstance(got, list):
+                        raise OUndecided('no return path for selection %s' % (selv,))
+                    elif list(got) != want:
+                        bad = 'selection %s (subset vector %s): chain vector %s, expected %s (one entry per selected ' \
+                              'cycle, chains are maximal runs)' % (list(map(int, selv)), subset, list(got), want)
                     n += 1
-                    gap_terms.add(g)
-                    base = v[1]
-                    if not (base[0] == 'bin' and base[1] == '-' and base[3] == C(1) and 'zeros' in show(base[2])):
-                        bad = 'vector is not initialised to -1: %s' % show(base)[:40]
-                else:
-                    bad = 'unrecognised vectorised labelling %s' % show(v)[:100]
+                    if bad:
+                        break
+                if bad:
+                    break
+            gap_terms.add(gaps)
+        except OUndecided as u:
+            n = 0
+            why_vec = str(u)
     if bad:
         ctx.violation(rid, fi, c2, bad)
     elif n < (2 if form == 'loop' else 1):
@@ -410,21 +469,34 @@ def rule_counters(ctx, rid):
         ctx.undecided(rid, fi, c3, 'no gap vector found')
     else:
         ctx.violation(rid, fi, c3, 'gap vector is %s' % [show(g)[:80] for g in gap_terms], expected=show(gaps))
-    # initial fill of both vectors is -1
-    for q, txt in (('emd.cycles.get_subset_vector', 'subset'), ('emd.cycles.get_chain_vector', 'chain')):
-        f2 = P.func(q)
+    # initial fill: it only matters where an element can stay unwritten.  Every iteration of the subset loop writes its
+    # element (checked above: selected and unselected paths both store) and every gap value selects a storing path of
+    # the chain loop, so the initial value of either vector never reaches the result; a rule on it would fire on edits
+    # that change nothing (np.ones_like(...) - 2, np.empty_like(...)).
+    f2 = P.func('emd.cycles.get_subset_vector')
+    ex2 = [e for e in Evaluator(P).run(f2) if e.kind == 'return']
+    unwritten = [b for ls, b, stores in _loop_store_paths(ex2) if not stores]
+    c = 'subset vector: every element is written by the loop, or the vector starts at -1'
+    if not unwritten:
+        ctx.passed(rid, f2, c, 'every loop path stores')
+    else:
         init = None
-        for n2 in walk_local(f2.node):
-            if isinstance(n2, ast.Assign) and isinstance(n2.value, ast.BinOp) and isinstance(n2.value.op, ast.Sub):
-                init = n2
-                break
-        c = '%s vector is initialised to -1' % txt
-        if txt == 'chain' and init_ok_vectorised:
-            ctx.passed(rid, f2, c, 'np.where(..., ..., -1)')
-        elif init is not None and unparse(init.value).replace(' ', '').endswith('-1') and 'zeros' in unparse(init.value):
-            ctx.passed(rid, f2, c)
+        for e in ex2:
+            for ls in e.state.loops:
+                if ls.kind == 'for':
+                    for name, head in ls.head_env.items():
+                        if any(eff[0] == 'setitem' and eff[5] == name for kind, b in ls.body_states for eff in b.effects):
+                            init = ls.entry_env.get(name)
+        t = init
+        while t is not None and t[0] == 'meth' and t[1] in ('astype', 'copy'):
+            t = t[2]
+        ok = t is not None and ((t[0] == 'bin' and t[1] == '-' and t[3] == C(1) and 'zeros' in show(t[2])) or
+                                (t[0] == 'call' and t[1] in ('numpy.full', 'numpy.full_like') and len(t[2]) > 1 and t[2][1] == C(-1)))
+        if ok:
+            ctx.passed(rid, f2, c, 'starts at -1')
         else:
-            ctx.violation(rid, f2, c, 'initialisation %s' % (unparse(init)[:60] if init else 'not found'))
+            ctx.violation(rid, f2, c, 'a loop path leaves the element unwritten and the vector starts as %s'
+                          % (show(init)[:60] if init is not None else 'unknown'))
 
 
 def rule_metric_store(ctx, rid):
